@@ -18,6 +18,48 @@ import proglib as pl
 import vlib
 
 
+def same_name_pass(ctx, rng, uni, evs, thorough):
+    """P and Q once more under the SAME function name (and the same package path) in two files
+    fingerprinted by one process: what `sfw diff old.go new.go` does.  Any state the fingerprinter
+    keeps per function NAME (caches, memo tables) shows up here and nowhere else."""
+    import json
+    import c04
+    diffs = [e for e in evs if not e["same"]]
+    pick = [e for e in diffs if e["p"]["tpl"] in ("closure", "rec")]
+    rest = [e for e in diffs if e["p"]["tpl"] not in ("closure", "rec")]
+    rng.shuffle(rest)
+    pick += rest[: (3000 if thorough else 500)]
+    base = os.path.join(ctx.scratch, "samename")
+    files, chunks = [], []
+    per = 250
+    for c0 in range(0, len(pick), per):
+        chunk = pick[c0:c0 + per]
+        old = [(uni.inst[e["fn_p"]][0], "E%d" % (c0 + j), 0) for j, e in enumerate(chunk)]
+        new = [(uni.inst[e["fn_q"]][0], "E%d" % (c0 + j), 0) for j, e in enumerate(chunk)]
+        po = c04.write_pkg(os.path.join(base, "o%d" % c0), minigo.render_file("pk", old))
+        pn = c04.write_pkg(os.path.join(base, "n%d" % c0), minigo.render_file("pk", new))
+        files += [po, pn]
+        chunks.append((chunk, po, pn, c0))
+    plan = os.path.join(ctx.scratch, "sn.plan.json")
+    out = os.path.join(ctx.scratch, "sn.ndjson")
+    with open(plan, "w") as fh:
+        json.dump({"files": files, "policies": ["default", "keepall"]}, fh)
+    ctx.drv(["fp-funcs", "-plan", plan, "-out", out], timeout=3000)
+    fps = {}
+    for r in vlib.read_ndjson(out):
+        if r.get("error"):
+            raise vlib.Inconclusive("fingerprinting a generated file failed: %s: %s" % (r["file"], r["error"][:500]))
+        fps[(r["file"], r["policy"])] = r["fps"]
+    res = []
+    for chunk, po, pn, c0 in chunks:
+        for j, e in enumerate(chunk):
+            n = "E%d" % (c0 + j)
+            res.append(dict(e, what=e["what"] + "+samename", fp_def_p=fps[(po, "default")][n], fp_def_q=fps[(pn, "default")][n],
+                            fp_keep_p=fps[(po, "keepall")][n], fp_keep_q=fps[(pn, "keepall")][n]))
+    ctx.notes["same_name_edges"] = len(res)
+    return res
+
+
 def check(ctx):
     thorough = ctx.tier == "thorough"
     ctx.build_drv()
@@ -45,6 +87,7 @@ def check(ctx):
                     "fp_keep_p": fps["keepall"][fp_], "fp_keep_q": fps["keepall"][fq_]})
     if unconfirmed:
         raise vlib.Inconclusive("%d DIFF verdicts of TLC were not confirmed by the native run (spec/emitter bug)" % unconfirmed)
+    evs += same_name_pass(ctx, rng, uni, evs, thorough)
     ctx.notes["edit_edges"] = len(evs)
     ctx.notes["diff_edges"] = len([e for e in evs if not e["same"]])
     ctx.notes["same_edges"] = len([e for e in evs if e["same"]])
